@@ -307,7 +307,6 @@ impl Shadow {
                 self.killed[m] = true;
             }
         }
-        self.provided[n].clear();
     }
     fn kill(&mut self, n: usize) {
         self.kill_children(n);
@@ -413,6 +412,8 @@ fn create_comp(w: &Rc<World>, env: &mut Vec<H>, kind: Kind, eq: EqK, body: &[Stm
             let mut sh = w.sh.borrow_mut();
             if sh.runs_total[my] > 0 {
                 sh.kill_children(my);
+                // (the real dispose_children has already returned when the callback starts)
+                sh.provided[my].clear();
             }
             sh.runs_total[my] += 1;
             sh.tracked[my].clear();
@@ -629,11 +630,14 @@ fn exec_stmt(w: &Rc<World>, env: &mut Vec<H>, run: &mut Run, s: &Stmt) {
             let (hnd, seq) = node_handle(w, env, *h);
             w.sh.borrow_mut().kill(seq);
             hnd.dispose();
+            // context values go last: they are still there while the cleanups run and the children are disposed
+            w.sh.borrow_mut().provided[seq].clear();
         }
         Stmt::DisposeCur => {
             let cur = w.sh.borrow().cur();
             w.sh.borrow_mut().kill(cur);
             use_current_scope().dispose();
+            w.sh.borrow_mut().provided[cur].clear();
         }
         Stmt::Batch(b) => {
             w.sh.borrow_mut().batch_depth += 1;
@@ -1500,6 +1504,29 @@ fn templates() -> Vec<Vec<Stmt>> {
     t.push(vec![Provide(0, Ex::C(1)), Scope(vec![Provide(1, Ex::C(2)), Scope(vec![Provide(0, Ex::C(3)), Use(0), Use(1), Use(2)]), Use(0)]), Use(0), Use(1), RunIn(0, vec![Use(1), Use(0)])]);
     t.push(vec![Signal(0), Provide(0, Ex::C(5)), Effect(vec![Read(0), IfPos(0, vec![Provide(0, Ex::Acc)], vec![]), Effect(vec![Use(0)])]), s_set(0, 1), s_set(0, 0), s_set(0, 2)]);
     t.push(vec![Provide(2, Ex::C(1)), Provide(2, Ex::C(2))]);
+    // context lookups DURING a teardown: a cleanup of the providing scope writes a signal that a descendant
+    // depends on; the descendant re-runs before the scope's children are disposed and still sees the scope's
+    // provision (not the outer one, not nothing)
+    for outer in [false, true] {
+        // (a) a scope that is disposed
+        let mut p = vec![Signal(0)];
+        if outer { p.push(Provide(0, Ex::C(3))); }
+        p.push(Scope(vec![Provide(0, Ex::C(7)), Provide(1, Ex::C(8)), Effect(vec![Read(0), Use(0), Use(1)]), Cleanup(vec![Set(0, Ex::C(1))])]));
+        p.extend([Dispose(1), s_set(0, 2)]);
+        t.push(p);
+        // (b) an effect that re-runs (its cleanups run before its children are disposed)
+        let mut p = vec![Signal(0), Signal(0)];
+        if outer { p.push(Provide(0, Ex::C(3))); }
+        p.push(Effect(vec![Read(1), Provide(0, Ex::AccPlus(10)), Effect(vec![Read(0), Use(0)]), Cleanup(vec![Set(0, Ex::AccPlus(1))])]));
+        p.extend([s_set(1, 1), s_set(1, 2), Dispose(2), s_set(0, 5)]);
+        t.push(p);
+        // (c) a memo with a nested memo
+        let mut p = vec![Signal(0), Signal(0)];
+        if outer { p.push(Provide(1, Ex::C(4))); }
+        p.push(Memo(vec![Read(1), Provide(1, Ex::Acc), Memo(vec![Read(0), Use(1)]), Cleanup(vec![Set(0, Ex::C(9))])]));
+        p.extend([s_set(1, 3), s_set(1, 4)]);
+        t.push(p);
+    }
     // effects that write a second signal during the propagation of the first, and computations
     // that read both (propagations nested in a running one, over nodes of the outer wave)
     for eff_first in [true, false] {
